@@ -13,8 +13,16 @@
 (* replaces or inserts single bytes within a budget.  Phase "recv": Deliver(k) hands the next k  *)
 (* bytes to the decoder (every path = one chunking).  The whole-stream decoder is the ghost      *)
 (* Whole(pos).                                                                                   *)
+(* Reports come in two kinds: single switch events (FAST "-L:"/"/L:", PKONE "PSW") and full-state *)
+(* reports (every OPP read-input frame; FAST "SA:" = all switches of the NET board as raw bits,    *)
+(* mpf/platforms/fast/communicators/net_neuron.py / net_nano.py _process_sa).  dec.sw is the       *)
+(* receiver state "switch states as last reported"; it is carried across the whole SEQUENCE of    *)
+(* messages (a full-state report overrides what events said before it, also when it is byte-      *)
+(* identical to an earlier full-state report), and dec.hist records it after every decoded message. *)
 EXTENDS Integers, Sequences, FiniteSets, TLC, Bitwise
-CONSTANTS Configs,      \* set of link configurations [proto, frames, fill, noise, keys, sws, infl, P, G]
+CONSTANTS Configs,      \* set of link configurations [proto, frames, fill, noise, keys, sws, infl, P, G, saf, san, inv, swc]
+                        \*   (FAST: saf = comma separated fields in front of the data of an "SA:" report (1 Neuron/Retro,
+                        \*    3 Nano), san = data bytes of a report, inv = numbers of the normally-closed switches)
           MaxFrames, MaxFaults (* drops + replacements + insertions *), MaxInsert, MaxFill, MaxChunk,
           Deviations    \* named code-as-is behaviours that break the statement (see *Apply / *Run)
 VARIABLES cfg, wire, pending, nfr, nins, nflt, nfill,
@@ -59,10 +67,13 @@ InitSw(c) == IF c.proto = "opp"
                                                         ELSE <<255, 255, 255, 255, 255, 255, 255, 255>>]
              ELSE [k \in SeqSet(c.keys) |-> 0]
 \* infl: PKONE messages_in_flight (commands sent and not yet answered; every terminator decrements it, never below 0)
-InitDec(c) == [buf |-> <<>>, base |-> 0, lost |-> FALSE, dead |-> FALSE, infl |-> c.infl, out |-> <<>>, sw |-> InitSw(c)]
+\* hist: the switch states after each message of out (the receiver state along the sequence of messages)
+InitDec(c) == [buf |-> <<>>, base |-> 0, lost |-> FALSE, dead |-> FALSE, infl |-> c.infl, out |-> <<>>, sw |-> InitSw(c),
+               hist |-> <<>>]
 Drop(d, n) == [d EXCEPT !.buf = Rest(@, n), !.base = @ + n]
 Emit(d, m) == [d EXCEPT !.out = Append(@, [at |-> d.base, m |-> m])]
 SetSw(d, k, v) == IF k \in DOMAIN d.sw THEN [d EXCEPT !.sw[k] = v] ELSE d
+Rec(d) == [d EXCEPT !.hist = Append(@, d.sw)]        \* the message handler has returned (or raised): remember the states
 
 \* ---------------------------------------------------------------- OPP
 IsAddr(b) == (b \div 32) = 1                        \* (byte & 0xe0) == 0x20
@@ -71,7 +82,7 @@ OppOk(m) == Len(m) \in {7, 11} /\ IsAddr(m[1]) /\ Len(m) = (IF m[2] = 8 THEN 7 E
 \* read_gen2_inp_resp / read_matrix_inp_resp: CRC first, then the card must exist
 OppApplySw(sw, m) == LET k == m[1] * 256 + m[2] IN       \* card key: address byte, command byte
     IF OppOk(m) /\ k \in DOMAIN sw THEN [sw EXCEPT ![k] = SubSeq(m, 3, Len(m) - 1)] ELSE sw
-OppTake(d, n) == LET m == SubSeq(d.buf, 1, n) IN [Drop(Emit(d, m), n) EXCEPT !.sw = OppApplySw(d.sw, m)]
+OppTake(d, n) == LET m == SubSeq(d.buf, 1, n) IN Rec([Drop(Emit(d, m), n) EXCEPT !.sw = OppApplySw(d.sw, m)])
 RECURSIVE OppScan(_)
 OppScan(d) == IF d.buf = <<>> THEN d
               ELSE IF IsAddr(d.buf[1]) THEN [d EXCEPT !.lost = FALSE] ELSE OppScan(Drop(d, 1))
@@ -86,7 +97,7 @@ OppRun(d) ==
     ELSE IF d.buf[1] = 255 THEN OppRun(Drop(d, 1))
     ELSE OppRun([Drop(d, 1) EXCEPT !.lost = TRUE])
 
-\* ---------------------------------------------------------------- FAST (switch event lines "-L:hh" / "/L:hh")
+\* ---------------------------------------------------------------- FAST (switch event lines "-L:hh" / "/L:hh", on a Nano "-N:hh" / "/N:hh"; reports "SA:")
 HexVal(b) == IF b \in 48..57 THEN b - 48 ELSE IF b \in 65..70 THEN b - 55 ELSE IF b \in 97..102 THEN b - 87 ELSE 0 - 1
 AllHex(s) == s # <<>> /\ \A i \in 1..Len(s) : HexVal(s[i]) >= 0
 RECURSIVE HexNum(_, _)
@@ -94,25 +105,56 @@ HexNum(acc, s) == IF s = <<>> THEN acc ELSE HexNum(acc * 16 + HexVal(Head(s)), T
 \* what Python's int(s, 16) accepts over the byte classes used here (sign, hex digits)
 PyHexOk(s) == AllHex(s) \/ (Len(s) >= 2 /\ s[1] = 45 /\ AllHex(Tail(s)))
 PyHexVal(s) == IF s[1] = 45 THEN 0 - HexNum(0, Tail(s)) ELSE HexNum(0, s)
-FastSwHdr(m) == Len(m) >= 3 /\ m[1] \in {45, 47} /\ m[2] = 76 /\ m[3] = 58
-FastOk(m) == FastSwHdr(m) /\ Len(m) = 5 /\ AllHex(Rest(m, 3))       \* well-formed per the FAST serial protocol
-FastApplySw(sw, m) == IF FastOk(m) /\ HexNum(0, Rest(m, 3)) \in DOMAIN sw
-                      THEN [sw EXCEPT ![HexNum(0, Rest(m, 3))] = IF m[1] = 45 THEN 1 ELSE 0] ELSE sw
-FastApply(d, m) ==
-    IF ~FastSwHdr(m) \/ FastOk(m) THEN [d EXCEPT !.sw = FastApplySw(d.sw, m)]
+\* c.swc: letter of the switch events of this controller ("L" local switches of a Neuron / Retro, "N" network switches of a Nano)
+FastSwHdr(c, m) == Len(m) >= 3 /\ m[1] \in {45, 47} /\ m[2] = c.swc /\ m[3] = 58
+FastOk(c, m) == FastSwHdr(c, m) /\ Len(m) = 5 /\ AllHex(Rest(m, 3))       \* well-formed per the FAST serial protocol
+\* full-state report "SA:" f1 "," .. f<saf> "," data: the fields are two hex digits each, the last of them is the number
+\* of data bytes (c.san for this controller); data = two hex digits per byte, switch k is bit k % 8 of byte k \div 8
+\* (raw, electrical state: a normally-closed switch is active when its bit is 0)
+RECURSIVE Fields(_)
+Fields(s) == LET p == IndexOf(s, 44) IN IF p = 0 THEN <<s>> ELSE <<SubSeq(s, 1, p - 1)>> \o Fields(Rest(s, p))
+FastSaHdr(m) == Len(m) >= 3 /\ m[1] = 83 /\ m[2] = 65 /\ m[3] = 58
+FastSaOk(c, m) == FastSaHdr(m) /\ LET fs == Fields(Rest(m, 3)) IN
+    /\ Len(fs) = c.saf + 1
+    /\ \A i \in 1..c.saf : Len(fs[i]) = 2 /\ AllHex(fs[i])
+    /\ HexNum(0, fs[c.saf]) = c.san
+    /\ Len(fs[c.saf + 1]) = 2 * c.san /\ AllHex(fs[c.saf + 1])
+SaData(m) == LET fs == Fields(Rest(m, 3)) IN fs[Len(fs)]
+SaBit(data, k) == Bit(HexVal(data[2 * (k \div 8) + 1]) * 16 + HexVal(data[2 * (k \div 8) + 2]), k % 8)
+\* the switches covered by data take the reported state, the others keep theirs
+SaSw(c, sw, data) == [k \in DOMAIN sw |-> IF k < 4 * Len(data)
+                                          THEN (IF k \in SeqSet(c.inv) THEN 1 - SaBit(data, k) ELSE SaBit(data, k))
+                                          ELSE sw[k]]
+\* _process_sa as written: exactly saf + 1 fields, bytearray.fromhex(last field); the other fields are not looked at
+PySaOk(c, p) == LET fs == Fields(p) IN Len(fs) = c.saf + 1 /\ Len(fs[Len(fs)]) % 2 = 0
+                                       /\ \A i \in 1..Len(fs[Len(fs)]) : HexVal(fs[Len(fs)][i]) >= 0
+FastApplySw(c, sw, m) ==
+    IF FastSaOk(c, m) THEN SaSw(c, sw, SaData(m))
+    ELSE IF FastOk(c, m) /\ HexNum(0, Rest(m, 3)) \in DOMAIN sw
+         THEN [sw EXCEPT ![HexNum(0, Rest(m, 3))] = IF m[1] = 45 THEN 1 ELSE 0] ELSE sw
+FastApply(c, d, m) ==
+    IF FastSaHdr(m) /\ ~FastSaOk(c, m) THEN
+        \* as written: a report with a wrong field count / odd or non-hex data raises; any other one is applied to the
+        \* switches its data covers, and raises (KeyError) when a configured switch is not covered
+        IF ~PySaOk(c, Rest(m, 3)) THEN (IF "MalformedRaises" \in Deviations THEN [d EXCEPT !.dead = TRUE] ELSE d)
+        ELSE LET data == SaData(m)
+                 d1 == IF "MalformedAccepted" \in Deviations THEN [d EXCEPT !.sw = SaSw(c, d.sw, data)] ELSE d
+             IN IF (\E k \in DOMAIN d.sw : k >= 4 * Len(data)) /\ "MalformedRaises" \in Deviations
+                THEN [d1 EXCEPT !.dead = TRUE] ELSE d1
+    ELSE IF ~FastSwHdr(c, m) \/ FastOk(c, m) THEN [d EXCEPT !.sw = FastApplySw(c, d.sw, m)]
     ELSE IF PyHexOk(Rest(m, 3))
          THEN (IF "MalformedAccepted" \in Deviations THEN SetSw(d, PyHexVal(Rest(m, 3)), IF m[1] = 45 THEN 1 ELSE 0) ELSE d)
          ELSE (IF "MalformedRaises" \in Deviations THEN [d EXCEPT !.dead = TRUE] ELSE d)
-RECURSIVE FastRun(_)
-FastRun(d) ==
+RECURSIVE FastRun(_, _)
+FastRun(c, d) ==
     IF d.dead THEN d ELSE
     LET p == IndexOf(d.buf, 13) IN
     IF p = 0 THEN d ELSE
     LET m == SubSeq(d.buf, 1, p - 1)
         d1 == Drop(d, p) IN
-    IF m = <<>> THEN FastRun(d1)
-    ELSE IF HasHigh(m) THEN (IF "DecodeErrorRaises" \in Deviations THEN [d1 EXCEPT !.dead = TRUE] ELSE FastRun(d1))
-    ELSE FastRun(FastApply([d1 EXCEPT !.out = Append(@, [at |-> d.base, m |-> m])], m))
+    IF m = <<>> THEN FastRun(c, d1)
+    ELSE IF HasHigh(m) THEN (IF "DecodeErrorRaises" \in Deviations THEN [d1 EXCEPT !.dead = TRUE] ELSE FastRun(c, d1))
+    ELSE FastRun(c, Rec(FastApply(c, [d1 EXCEPT !.out = Append(@, [at |-> d.base, m |-> m])], m)))
 
 \* ---------------------------------------------------------------- PKONE (switch event "PSW" b nn s "E")
 IsDig(b) == b \in 48..57
@@ -128,7 +170,8 @@ PkPyOk(p) == Len(p) >= 2 /\ IsDig(p[1]) /\ AllDig(SubSeq(p, 2, IF Len(p) < 3 THE
 PkApply(d, m) ==
     IF ~PkSwHdr(m) \/ PkOk(m) THEN [d EXCEPT !.sw = PkApplySw(d.sw, m)]
     ELSE LET p == Rest(m, 3) IN
-         IF PkPyOk(p) THEN (IF "MalformedAccepted" \in Deviations THEN SetSw(d, PkKey(p), p[Len(p)] - 48) ELSE d)
+         \* (the switch controller takes any state digit other than 0 as "active")
+         IF PkPyOk(p) THEN (IF "MalformedAccepted" \in Deviations THEN SetSw(d, PkKey(p), IF p[Len(p)] = 48 THEN 0 ELSE 1) ELSE d)
          ELSE (IF "MalformedRaises" \in Deviations THEN [d EXCEPT !.dead = TRUE] ELSE d)
 RECURSIVE PkRun(_)
 PkRun(d) ==
@@ -140,18 +183,18 @@ PkRun(d) ==
     IF m = <<>> THEN PkRun(d1)
     ELSE IF HasHigh(m) THEN (IF "DecodeErrorRaises" \in Deviations THEN [d1 EXCEPT !.dead = TRUE] ELSE PkRun(d1))
     ELSE IF m = <<80, 87, 68>> THEN PkRun(d1)                    \* "PWD" is in ignored_messages
-    ELSE PkRun(PkApply([d1 EXCEPT !.out = Append(@, [at |-> d.base, m |-> m])], m))
+    ELSE PkRun(Rec(PkApply([d1 EXCEPT !.out = Append(@, [at |-> d.base, m |-> m])], m)))
 
 \* ---------------------------------------------------------------- common
-Run(c, d) == IF c.proto = "opp" THEN OppRun(d) ELSE IF c.proto = "fast" THEN FastRun(d) ELSE PkRun(d)
+Run(c, d) == IF c.proto = "opp" THEN OppRun(d) ELSE IF c.proto = "fast" THEN FastRun(c, d) ELSE PkRun(d)
 Feed(c, d, chunk) == IF d.dead THEN d ELSE Run(c, [d EXCEPT !.buf = @ \o chunk])
 ApplySw(c, sw, m) == IF c.proto = "opp" THEN OppApplySw(sw, m)
-                     ELSE IF c.proto = "fast" THEN FastApplySw(sw, m) ELSE PkApplySw(sw, m)
+                     ELSE IF c.proto = "fast" THEN FastApplySw(c, sw, m) ELSE PkApplySw(sw, m)
 \* the carry-over up to what the decoder will do with it anyway before looking at new bytes
 NormCarry(c, d) == IF d.dead THEN [buf |-> <<>>, lost |-> FALSE]
                    ELSE IF c.proto = "opp" /\ d.lost THEN [buf |-> OppScan(d).buf, lost |-> OppScan(d).lost]
                    ELSE [buf |-> d.buf, lost |-> d.lost]
-Norm(c, d) == [out |-> d.out, sw |-> d.sw, dead |-> d.dead, infl |-> d.infl, carry |-> NormCarry(c, d)]
+Norm(c, d) == [out |-> d.out, sw |-> d.sw, hist |-> d.hist, dead |-> d.dead, infl |-> d.infl, carry |-> NormCarry(c, d)]
 FrameMsg(c, f) == IF c.proto = "opp" THEN f ELSE SubSeq(f, 1, Len(f) - 1)     \* without the terminator
 RECURSIVE FoldSw(_, _, _)
 FoldSw(c, sw, ms) == IF ms = <<>> THEN sw ELSE FoldSw(c, ApplySw(c, sw, Head(ms)), Tail(ms))
@@ -213,12 +256,16 @@ Spec == Init /\ [][Next]_vars
 Whole(n) == Feed(cfg, InitDec(cfg), SubSeq(wire, 1, n))
 AtEnd == phase = "recv" /\ pos = Len(wire)
 \* the valid frames offered by the configuration really are valid (cross-check of Crc8 with the code's CRC)
-FramesValid == \A f \in cfg.frames : (cfg.proto = "opp" => OppOk(f)) /\ (cfg.proto = "fast" => FastOk(FrameMsg(cfg, f)))
+FramesValid == \A f \in cfg.frames : (cfg.proto = "opp" => OppOk(f)) /\ (cfg.proto = "fast" => FastOk(cfg, FrameMsg(cfg, f)) \/ FastSaOk(cfg, FrameMsg(cfg, f)))
                                      /\ (cfg.proto = "pkone" => PkOk(FrameMsg(cfg, f)))
 \* decoded messages, switch states and (normalised) carry-over depend only on the bytes delivered so far
 ChunkInvariance == phase = "recv" => Norm(cfg, dec) = Norm(cfg, Whole(pos))
 \* only well-formed frames (correct length and checksum) ever act on switch states ...
 BadFrameInert == dec.sw = FoldSw(cfg, InitSw(cfg), [i \in 1..Len(dec.out) |-> dec.out[i].m]) /\ ~dec.dead
+\* ... at every point of the message sequence: the states after the i-th decoded message are those of the well-formed
+\* ones among the first i (a full-state report replaces, an event changes one switch)
+SequenceFollowsReports == ~dec.dead => /\ Len(dec.hist) = Len(dec.out)
+    /\ \A i \in 1..Len(dec.out) : dec.hist[i] = FoldSw(cfg, InitSw(cfg), [j \in 1..i |-> dec.out[j].m])
 \* ... and on a checksummed link no switch state is ever invented: it is one that a board reported
 NoInventedState == cfg.proto = "opp" =>
     \A k \in DOMAIN dec.sw : dec.sw[k] = InitSw(cfg)[k]
